@@ -360,3 +360,120 @@ def run_batch(steps, wd, name, profile="verifdbg", pre=(), stack_mb=8, timeout=6
             break
         start = failed + 1
     return out, events, []
+
+
+# ------------------------------------------------------------------------------------------------
+# sanitizer / interpreter tiers (thorough): the same scenario shards under Miri, ASan, TSan, valgrind
+
+NIGHTLY = "+nightly"
+_san_built = {}
+
+
+def san_env(kind):
+    env = dict(ENV)
+    env["CARGO_TARGET_DIR"] = os.path.join(TARGET, "san-" + kind)
+    if kind == "asan":
+        env["RUSTFLAGS"] = "-Zsanitizer=address -Cforce-frame-pointers=yes"
+        env["ASAN_OPTIONS"] = "detect_leaks=0:halt_on_error=1:abort_on_error=1:detect_stack_use_after_return=0"
+    elif kind == "tsan":
+        env["RUSTFLAGS"] = "-Zsanitizer=thread"
+        env["TSAN_OPTIONS"] = "halt_on_error=1:exitcode=66:second_deadlock_stack=1"
+    elif kind == "miri":
+        env["MIRIFLAGS"] = "-Zmiri-disable-isolation -Zmiri-ignore-leaks"
+    return env
+
+
+def build_sanitizer(kind):
+    """Builds vexec under a sanitizer (nightly). Returns the binary path, or None when the toolchain
+    cannot produce it here (the caller reports `inconclusive`, never a verdict)."""
+    if kind in _san_built:
+        return _san_built[kind]
+    sync_lock()
+    env = san_env(kind)
+    lock = _locked(os.path.join(TARGET, ".verif-build-%s.lock" % kind))
+    try:
+        mp = os.path.join(HARNESS, "Cargo.toml")
+        if kind == "asan":
+            cmd = ["cargo", NIGHTLY, "build", "--offline", "--profile", "verifdbg", "--target", "x86_64-unknown-linux-gnu", "--manifest-path", mp]
+        elif kind == "tsan":
+            cmd = ["cargo", NIGHTLY, "build", "--offline", "-Zbuild-std", "--profile", "verifdbg", "--target", "x86_64-unknown-linux-gnu", "--manifest-path", mp]
+        elif kind == "miri":
+            # a dry run that compiles everything under the interpreter's sysroot
+            empty = os.path.join(WORK, "miri-empty.jsonl")
+            os.makedirs(WORK, exist_ok=True)
+            open(empty, "w").write("")
+            cmd = ["cargo", NIGHTLY, "miri", "run", "--offline", "--manifest-path", mp, "--", empty, os.path.join(WORK, "miri-empty.out"), "8"]
+        else:
+            raise HarnessError("unknown sanitizer " + kind)
+        r = subprocess.run(cmd, env=env, stdout=subprocess.PIPE, stderr=subprocess.STDOUT, text=True)
+        if r.returncode != 0:
+            sys.stderr.write("sanitizer build %s failed:\n%s\n" % (kind, r.stdout[-3000:]))
+            _san_built[kind] = None
+            return None
+    finally:
+        lock.close()
+    if kind == "miri":
+        _san_built[kind] = "miri"
+    else:
+        p = os.path.join(env["CARGO_TARGET_DIR"], "x86_64-unknown-linux-gnu", "verifdbg", "vexec")
+        _san_built[kind] = p if os.path.exists(p) else None
+    return _san_built[kind]
+
+
+def run_under(kind, steps, wd, name, timeout=3600, seed=None, stack_mb=8):
+    """Runs a scenario under a sanitizer tier. Returns (run, reports) where reports is a list of
+    sanitizer findings (strings); ([], None) style results never mean a verdict by themselves."""
+    if kind == "valgrind":
+        exe = build("release")
+        vg = shutil.which("valgrind")
+        if not vg:
+            return None, ["unavailable: valgrind not installed"]
+        run = run_vexec(steps, wd, name, binary=exe, wrapper=[vg, "--quiet", "--error-exitcode=99", "--errors-for-leak-kinds=none", "--leak-check=no"], timeout=timeout, stack_mb=stack_mb)
+        reports = []
+        if run.code == 99 or "== Invalid" in run.stderr or "uninitialised" in run.stderr:
+            reports.append("valgrind memcheck: " + run.stderr[-1500:])
+        return run, reports
+    exe = build_sanitizer(kind)
+    if exe is None:
+        return None, ["unavailable: %s build failed" % kind]
+    env = san_env(kind)
+    if kind == "miri":
+        if seed is not None:
+            env["MIRIFLAGS"] += " -Zmiri-seed=%d" % seed
+        sp = os.path.join(wd, name + ".scn.jsonl")
+        op = os.path.join(wd, name + ".out.jsonl")
+        with open(sp, "w") as f:
+            for s in steps:
+                f.write(json.dumps(s, ensure_ascii=False) + "\n")
+        cmd = ["cargo", NIGHTLY, "miri", "run", "--offline", "--manifest-path", os.path.join(HARNESS, "Cargo.toml"), "--", sp, op, str(stack_mb)]
+        t0 = time.time()
+        try:
+            pr = subprocess.run(cmd, env=env, stdout=subprocess.PIPE, stderr=subprocess.PIPE, timeout=timeout)
+            rc, timed_out, err = pr.returncode, False, pr.stderr.decode("utf-8", "replace")
+        except subprocess.TimeoutExpired:
+            rc, timed_out, err = None, True, ""
+        records = []
+        if os.path.exists(op):
+            for line in open(op, encoding="utf-8", errors="replace"):
+                line = line.strip()
+                if line:
+                    try:
+                        records.append(json.loads(line))
+                    except (ValueError, RecursionError):
+                        records.append({"unparsable": line[:100]})
+        run = Run(records, rc if rc is not None and rc >= 0 else None, -rc if rc is not None and rc < 0 else None, None, time.time() - t0, timed_out, sp)
+        run.stderr = err[-6000:]
+        reports = []
+        if "Undefined Behavior" in err or "error: unsupported operation" in err or "deadlock" in err or "Data race" in err or "data race" in err:
+            idx = err.find("error:")
+            reports.append("miri: " + err[idx: idx + 1800])
+        elif rc not in (0, None) and not run.ended:
+            reports.append("miri: interpreter exited with %s: %s" % (rc, err[-800:]))
+        return run, reports
+    run = run_vexec(steps, wd, name, binary=exe, env=env, timeout=timeout, stack_mb=stack_mb)
+    reports = []
+    if kind == "tsan" and (run.code == 66 or "WARNING: ThreadSanitizer" in run.stderr):
+        reports.append("tsan: " + run.stderr[-2500:])
+    if kind == "asan" and ("ERROR: AddressSanitizer" in run.stderr):
+        reports.append("asan: " + run.stderr[-2500:])
+    return run, reports
